@@ -103,8 +103,8 @@ pub enum Driver {
     /// fail), followed by `write_all(input[cut..])` on the same stream: the abandoned call's pieces were consumed, so
     /// both calls together must deliver what one call with the whole input delivers
     FmtAbandonThen(usize),
-    /// like `FmtAbandonThen`, but the `Display` impl panics after writing its text (the panic is caught): a stream
-    /// that parked its state somewhere while formatting must have it back afterwards
+    /// like `FmtAbandonThen`, but the `Display` impl panics after writing its text (the panic is caught): whatever
+    /// the stream delivered of that text must be a prefix of it, and the next call must behave as after some prefix
     FmtPanicThen(usize),
     /// `write_all` / `write!` on a strip stream whose inner writer is itself a strip stream (a writer that was already
     /// wrapped once): stripping twice delivers what stripping once delivers, and nothing per-thread may be shared
@@ -473,7 +473,8 @@ pub fn run_case(mode: Mode, input: &[u8], driver: Driver, script: Script) -> (Re
                         &mut auto_s
                     }
                 };
-                let a = std::str::from_utf8(&input[..cut]).map_err(|_| "machinery: fragment not UTF-8".to_string())?;
+                let (a_bytes, b_bytes) = input.split_at(cut);
+                let a = std::str::from_utf8(a_bytes).map_err(|_| "machinery: fragment not UTF-8".to_string())?;
                 begin_call(&sh);
                 let first = std::panic::catch_unwind(std::panic::AssertUnwindSafe(|| write!(stream, "{}", Bomb(a))));
                 if first.is_ok() {
@@ -483,18 +484,51 @@ pub fn run_case(mode: Mode, input: &[u8], driver: Driver, script: Script) -> (Re
                 if !sh.borrow().call_errors.is_empty() || sh.borrow().call_short {
                     return Ok(());
                 }
+                // How much of a formatted write that unwound was consumed is not specified (the statement is about
+                // the caller's protocol, and a panic is outside it): the stream may have delivered any prefix of it -
+                // even nothing, if it renders first and writes once - but what it delivered must be a prefix, and the
+                // next call must behave as after SOME prefix of the abandoned text.
+                let before = sh.borrow().accepted.clone();
+                let ok_first = if mode == Mode::Strip { StripModel::default().output_of_some_prefix(a_bytes, &before) } else { a_bytes.starts_with(&before) };
+                if !ok_first {
+                    return Err(format!("after a write! whose Display impl panicked (caught) the inner writer holds {}, which is not the stripped form of any prefix of {} and differs from anything that call may deliver", show(&before), show(a_bytes)));
+                }
                 begin_call(&sh);
-                let second = stream.write_all(&input[cut..]);
+                let second = stream.write_all(b_bytes);
                 let (errs, zero) = {
                     let s = sh.borrow();
                     (s.call_errors.clone(), s.call_zero)
                 };
+                let new: Vec<u8> = sh.borrow().accepted[before.len()..].to_vec();
+                let starts: Vec<StripModel> = (0..=a_bytes.len())
+                    .map(|r| {
+                        let mut m = StripModel::default();
+                        let _ = m.expected_exact(&a_bytes[..r]);
+                        m
+                    })
+                    .collect();
                 match second {
                     Ok(()) => {
                         if errs.iter().any(|k| *k != ErrorKind::Interrupted) {
                             return Err(format!("inner error {:?} was turned into success", errs[0]));
                         }
-                        check_delivered(mode, input, input.len(), &sh, "after a write! whose Display impl panicked (caught) and write_all of the rest")
+                        let ok = if mode == Mode::Strip {
+                            starts.iter().any(|m| {
+                                let mut m = *m;
+                                m.check_output(b_bytes, &new).is_ok()
+                            })
+                        } else {
+                            new == b_bytes
+                        };
+                        if !ok {
+                            return Err(format!(
+                                "after a write! whose Display impl panicked (caught), write_all({}) returned Ok(()) but the inner writer received {} during it, which differs from what this call has to deliver after any prefix of the abandoned text {}",
+                                show(b_bytes),
+                                show(&new),
+                                show(a_bytes)
+                            ));
+                        }
+                        Ok(())
                     }
                     Err(e) => {
                         let allowed = errs.contains(&e.kind()) || (zero && e.kind() == ErrorKind::WriteZero);
